@@ -164,6 +164,10 @@ func (p *parser) primary() *Node {
 	case TVarRef:
 		return &Node{Op: "var", Val: t.Val}
 	case TLParen:
+		if VariantEmptyParens && p.peek().Kind == TRParen {
+			p.next()
+			return &Node{Op: "paren-empty"}
+		}
 		e := p.expr()
 		if p.next().Kind != TRParen {
 			p.i--
